@@ -90,8 +90,13 @@ def canon_impl(lines):
         if l.startswith("f "):
             t = l.split()
             ep = name_epoch(t[1])
-            res.append("f %s %s %s" % (ep if ep is not None else t[1], t[2], t[3]))
+            m = NAME.match(t[1])
+            stamp = ".%s%s%s-%s%s%s." % m.groups()[:6] if m else "?"
+            res.append("f %s %s %s %s" % (ep if ep is not None else t[1], t[2], t[3], stamp))
             continue
+        if l.startswith("N ") or l.startswith("L "):      # section trace of a thread-safe LogFile run: second pass
+            continue
+        l = re.sub(r" disk(total)?=-?\d+$", "", l)
         l = re.sub(r" tc=\d+$", "", l)
         if prev_announce and l.startswith("B gate=write arg="):
             l = re.sub(r"arg=\d+", "arg=ann", l, count=1)
@@ -129,6 +134,7 @@ def oracle_seq(case, lines, casedir):
     erridx = []
     opi = 0
     rolls = 0
+    cur_bytes = 0          # bytes the stream of the current file has accepted
 
     def st(line, key):
         m = re.search(r" %s=(-?\d+)" % key, line)
@@ -144,6 +150,12 @@ def oracle_seq(case, lines, casedir):
         started = None       # a new file was started by this op (observed, not modelled)
         if t[0] == "R":
             started = after.startswith("R 1")
+        if t[0] == "C":
+            # ~LogFile: everything that was appended is in the files now (fclose flushed the rest)
+            tot = st(after, "disktotal")
+            if tot != sum(len(x) for x in chunks):
+                return "op %d (C): after the destructor the files hold %s bytes, %d were appended" % (opi, tot, sum(len(x) for x in chunks))
+            break
         if t[0] == "A":
             data = bytes_of_spec(t[1])
             nows.update((int(t[2]), int(t[3])))
@@ -173,6 +185,17 @@ def oracle_seq(case, lines, casedir):
             started = (wb1 == 0 and wb0 + counted > 0) or lr1 != lr0
         elif t[0] == "R":
             nows.add(int(t[1]))
+        if t[0] == "A":
+            cur_bytes += pos
+        disk = st(after, "disk")
+        if started:
+            cur_bytes = 0
+        if disk is not None:
+            if disk > cur_bytes:
+                return "op %d (%s): the kernel has %d bytes of the current file, only %d were appended to it" % (opi, op[:40], disk, cur_bytes)
+            if (t[0] == "F" or started) and disk != cur_bytes:
+                return ("op %d (%s): after a flush / in a fresh file the kernel has %d bytes of the current file, %d were appended "
+                        "(flush did not hand everything to the OS)" % (opi, op[:40], disk, cur_bytes))
         if started:
             rolls += 1
             if not lr1 > lr0:
@@ -525,6 +548,8 @@ def gen_seq(rng, cid, big=False):
             t += rng.choice([0, 1, 1, -3])
             t = max(t, 1)
             ops.append("R %d" % t)
+    if rng.random() < 0.3:
+        ops.append("C")          # ~LogFile explicitly (otherwise at the end of the case, unobserved)
     return vlib.Case(cid, hdr, ops, "seq-random")
 
 
@@ -549,6 +574,11 @@ def f8_family():
                                ops + ["A 1 2 @1:300:5", "S", "B", "B", "B", "B", "B", "B", "J"], "stop-phase"))
         cases.append(vlib.Case("stop_at_%s_idle" % name, "async threads=2 roll=1000000000 flush=3 now=1000",
                                ops + ["S", "B", "B", "B", "B", "B", "J"], "stop-phase"))
+    # ~AsyncLogging while running (no stop(), no join: the case just ends and the object is destroyed):
+    # the destructor's stop() has to write what was appended, at every phase of the back-end
+    for name, ops in phases.items():
+        cases.append(vlib.Case("dtor_at_%s" % name, "async threads=2 roll=1000000000 flush=3 now=1000",
+                               ops + ["A 1 2 @1:300:5"], "destructor"))
     return cases
 
 
@@ -621,7 +651,7 @@ def free_cases(rng, tier):
         cs.append(vlib.Case("free_overload", "free threads=8 n=15000 lens=4000 roll=100000000 burst=0 quiesce=1 slow=30000", [], "free-running"))
         cs.append(vlib.Case("free_big1", "free threads=4 n=60000 lens=@500:4000:%d roll=20000000 burst=128 quiesce=0" % rng.randint(1, 9999), [], "free-running"))
     # several threads appending to ONE thread-safe LogFile (LogFile::append under its own mutex), rolling often
-    for i, (T, lens, roll, every) in enumerate([(4, "@1:300:%d" % rng.randint(1, 9999), 40000, 7), (3, "@10:4000:%d" % rng.randint(1, 9999), 300000, 1024),
+    for i, (T, lens, roll, every) in enumerate([(4, "@1:300:%d" % rng.randint(1, 9999), 40000, 7), (3, "@10:4000:%d" % rng.randint(1, 9999), 60000, 1024),
                                                 (8, "@1:64:%d" % rng.randint(1, 9999), 9000, 1)][: 2 if tier == "quick" else 3]):
         cs.append(vlib.Case("lfree%d" % i, "lfree threads=%d n=%d lens=%s roll=%d flush=3 every=%d burst=%d now=86395 quiesce=1"
                             % (T, n // 2, lens, roll, every, rng.choice([0, 8, 64])), [], "free-running"))
@@ -733,9 +763,38 @@ def run(chk, replay=None):
     crashes.update(c2)
     t2 = time.time()
     model_out, mcr = run_cases(model, cases, timeout=600, pre=["bash", "-c", 'ulimit -s unlimited 2>/dev/null; exec "$0" "$@"'], jobs=12)
+    # second pass, trace validation: the sections the real threads executed on the thread-safe LogFile, in the
+    # order in which they held its mutex and with the clock values they read, must be accepted step by step by
+    # the extracted monitor model (C16_MonModel over Conc_Model), which must end with the same files
+    lt_cases = []
+    for c in cases:
+        if c.header.split()[0] == "lfree" and c.cid in impl_out:
+            li0 = impl_out[c.cid]
+            n0 = [l.split()[1] for l in li0 if l.startswith("N ")]
+            hdr = re.sub(r"^lfree", "lftrace", c.header)
+            hdr = re.sub(r"now=\d+", "now=%s" % (n0[0] if n0 else "0"), hdr)
+            lt_cases.append(vlib.Case("lt_" + c.cid, hdr, [l for l in li0 if l.startswith("L ")], "lftrace"))
+    lt_out, _ = run_cases(model, lt_cases, timeout=600, pre=["bash", "-c", 'ulimit -s unlimited 2>/dev/null; exec "$0" "$@"'], jobs=4) if lt_cases else ({}, {})
     t3 = time.time()
 
     corr_bad, oracle_bad, known_bad = [], [], []
+    trace_sections = 0
+    for lc in lt_cases:
+        c0 = next(x for x in cases if "lt_" + x.cid == lc.cid)
+        want = int(hdr_get(c0.header, "threads", "1")) * int(hdr_get(c0.header, "n", "0"))
+        got = lt_out.get(lc.cid)
+        exp_f = [x for x in canon_impl(impl_out[c0.cid]) if x.startswith("f ")]
+        if not got or len(got) < 2:
+            corr_bad.append((c0, 0, "no output of the monitor model for the section trace"))
+        elif got[1] != "ACCEPT sections=%d left=0" % want:
+            corr_bad.append((c0, 1, "section trace of the real threads (%d sections, %d expected) not accepted by the monitor model: %r" % (len(lc.ops), want, got[1])))
+        elif [x for x in got if x.startswith("f ")] != exp_f:
+            a, b = [x for x in got if x.startswith("f ")], exp_f
+            i = next((i for i in range(min(len(a), len(b))) if a[i] != b[i]), min(len(a), len(b)))
+            corr_bad.append((c0, i, "files after replaying the section trace on the monitor model differ from the real files: model %r vs impl %r"
+                             % (a[i] if i < len(a) else None, b[i] if i < len(b) else None)))
+        else:
+            trace_sections += want
     free_stats = {"cases": 0, "records": 0, "bytes_in_files": 0, "files": 0, "announcements": 0, "asynclogging_4MB_buffers_filled_at_least": 0}
     sigs = set()
     hist = {}
@@ -805,6 +864,7 @@ def run(chk, replay=None):
     chk.cov["distinct_nontrivial"] = len(sigs)
     chk.cov["generator_histogram"] = hist
     chk.cov["free_running"] = free_stats
+    chk.cov["threadsafe_logfile_sections_validated"] = trace_sections
     chk.cov["phase_s"] = {"proof": round(pr["wall_s"], 1), "impl": round(t2 - t1, 1), "model": round(t3 - t2, 1)}
     chk.cov["rule"] = ("corpus + stop() at every back-end phase + overload cases at the valve boundary + the fit test at its boundary (len == avail) + "
                        "several threads on one thread-safe LogFile (free-running, file oracle) + free-running AsyncLogging runs incl. one stopped without "
@@ -828,6 +888,9 @@ def run(chk, replay=None):
                        "25/2/2, constructor defaults, shape of AppendFile::append's retry loop) translated from the current sources without fallback",
                        not gen_problems)
     chk.add_obligation("correspondence: extracted C16_Model (LogFile/AppendFile ops; AsyncLogging gate-to-gate steps) == real classes on every case", not corr_bad)
+    chk.add_obligation("trace validation: the critical sections of the thread-safe LogFile runs (order of mutex ownership + clock values read) are accepted "
+                       "by the extracted monitor model and end in the same files (name stamp, size, checksum)",
+                       all(x[0].header.split()[0] != "lfree" for x in corr_bad) and (replay is not None or trace_sections > 0 or not lt_cases))
     chk.add_obligation("oracle: files read back == appended records (exactly once, whole, in order, announced drops only, stop flushes)", not oracle_bad and not known_bad)
     chk.trusted("extraction: ExtrOcamlBasic only; extract/util.ml + extract/C16_driver.ml (OCaml 4.13.1; maps model park points to gates, steps over unobservable parks)",
                 "harness/C16_driver.cc: real AsyncLogging/LogFile/AppendFile, #define private public for observation, link-time interposition "
